@@ -66,7 +66,7 @@ MUTANTS = [
     dict(id="c14-lineheight-no-upem", props=["C14"], expect="R14a",
          edits=[dict(file=B, old="        line_height = round((ascent + descent) * ppem / float(config.upem))", new="        line_height = round((ascent + descent) * ppem)")]),
     dict(id="c14-xoffset-funits", props=["C14"], expect="R14a",
-         edits=[dict(file=B, old="                            _width_in_pixels(config, image_data)\n                            - config.bitmap_resolution", new="                            config.width\n                            - config.bitmap_resolution")]),
+         edits=[dict(file=B, old="                            _width_in_pixels(config, image_data)\n                            - image_data.size[0]", new="                            config.width\n                            - image_data.size[0]")]),
     dict(id="c14-funits-ascender-only", props=["C14"], expect="R14a",
          edits=[dict(file=B, old="    funits = config.ascender - config.descender\n    return (bitmap_pixel_height, funits)", new="    funits = config.ascender\n    return (bitmap_pixel_height, funits)")]),
     dict(id="c14-sbix-image-of-first", props=["C14"], expect="R14b",
@@ -122,4 +122,9 @@ MUTANTS += [
 """)]),
     dict(id="c05-truncating-quantiser", props=["C05", "C01"], expect="R05c",
          edits=[dict(file=W, old="        int(math.floor(xMin / factor) * factor),", new="        int(xMin / factor) * factor,")]),
+]
+
+MUTANTS += [
+    dict(id="c14-revert-fix-D10", props=["C14"], expect="R14e",
+         edits=[dict(file=B, old="                            - image_data.size[0]", new="                            - config.bitmap_resolution")]),
 ]
